@@ -70,13 +70,21 @@ def generate(tier, rng):
         k = rng.randrange(1, 6)
         grp = pairs[i:i + k]
         i += k
-        yield {'mem': [lib.hx(r) for r in _mem(rng, rng.choice(kinds))],
-               'writes': [[s, lib.hx(_data(rng, e - s))] for s, e in grp]}
+        mem = [lib.hx(r) for r in _mem(rng, rng.choice(kinds))]
+        case = {'mem': mem, 'writes': [[s, lib.hx(_data(rng, e - s))] for s, e in grp]}
+        if rng.random() < 0.2:
+            case['build'] = 'buffers'
+            if rng.random() < 0.7:
+                mem[3] = mem[2]      # equal gff / music contents: the caller may hand in one buffer for both
+        yield case
 
 
 def corpus_cases():
     # minimised past failures (the pre-fix defect): writes ending exactly on a region end
     z = [lib.hx(bytes(n)) for n in SIZES]
+    # carts assembled through the public constructors from caller-owned (and, where equal, shared) buffers
+    yield {'mem': z, 'build': 'buffers', 'writes': [[0x30fe, 'a1a2a3a4']]}
+    yield {'mem': z, 'build': 'buffers', 'writes': [[0x3000, '0102'], [0x31fe, '0304'], [0x1ffe, '05060708']]}
     yield {'mem': z, 'writes': [[0x1ffc, '01020304']]}
     yield {'mem': z, 'writes': [[0x3000, '07' * 0x100]]}
     yield {'mem': z, 'writes': [[0x42ff, '09']]}
@@ -86,10 +94,13 @@ def corpus_cases():
 
 def run_impl(case):
     from pico8.game.game import Game
-    g = Game.make_empty_game()
-    secs = [g.gfx, g.map, g.gff, g.music, g.sfx]
-    for s, h in zip(secs, case['mem']):
-        s._data[:] = lib.unhx(h)
+    if case.get('build') == 'buffers':
+        g, secs, _ = lib.game_from_buffers(case['mem'])
+    else:
+        g = Game.make_empty_game()
+        secs = [g.gfx, g.map, g.gff, g.music, g.sfx]
+        for s, h in zip(secs, case['mem']):
+            s._data[:] = lib.unhx(h)
     steps = []
     for addr, dh in case['writes']:
         before = [lib.hx(s._data) for s in secs]
